@@ -331,17 +331,36 @@ def falsy(value):
     return value is not None and not value
 
 
-def classify(case, launch):
-    """Input-class predicates of the open findings (known_findings.d/C10.json) - decided from the input only."""
+def classify(case, launch, history):
+    """Input-class predicates of the open findings (known_findings.d/C10.json) - decided from the input (and, for the
+    third class, from the inputs this process has been given before), never from the outcome.
+    -> {segment: (finding id | None, twin launch | None)}"""
     lower, upper, _ = concrete(case, launch)
     if not case['ordinal']:
         given = [b for b in (lower, upper) if b is not None]
         if given and all(falsy(b) for b in given) and not (launch['via'] == 'train' and launch['last'] != NONE):
-            return 'nonordinal-falsy-bound-accepted'
-        return None
+            return dict.fromkeys(('apply', 'train'), ('nonordinal-falsy-bound-accepted', None))
+        return dict.fromkeys(('apply', 'train'), (None, None))
     if launch['via'] == 'train' and falsy(lower):
-        return 'train-explicit-falsy-lower-replaced'
-    return None
+        return dict.fromkeys(('apply', 'train'), ('train-explicit-falsy-lower-replaced', None))
+    # the statement denoted by this launch: schema, shape, (labels,) operators, bounds as values of the ordinal kind
+    eff = launch['last'] if launch['via'] == 'train' and launch['lo'] == NONE else launch['lo']
+    bounds = tuple(None if pos == NONE else DOMAINS[case['kind']][case['off'] + pos] for pos in (eff, launch['hi']))
+    hashes = tuple(None if b is None else hash(b) for b in bounds)
+    me = {'off': case['off'], 'via': launch['via'], 'lo': launch['lo'], 'hi': launch['hi'], 'last': launch['last'],
+          'form': launch.get('form', case['form'])}
+    out = {}
+    for seg in ('apply', 'train'):
+        if launch['via'] != 'load' and seg != launch['via']:  # statement not evaluated by this launch
+            out[seg] = (None, None)
+            continue
+        labels = case['labels'] and case['shape'] != 'table' and seg == 'train'  # only the train statement carries them
+        twins = history.setdefault((seg, case['kind'], case['shape'], labels, case['sem'], hashes), {})
+        twin = next((t for b, t in twins.items() if b != bounds), None)
+        twins.setdefault(bounds, me)
+        # an earlier statement of this process differs only in bounds of equal python hash (-1 / -2)
+        out[seg] = ('hash-colliding-bound-answered-from-twin-statement', twin) if twin is not None else (None, None)
+    return out
 
 
 # ------------------------------------------------------------------------------------------------ TLC glue
@@ -453,8 +472,8 @@ def random_case(rnd, rotor, via):
     for lo, hi in zip(edges, edges[1:]):
         if via == 'train' and rnd.random() < 0.5:  # incremental: lower bound from the tag
             launch = {'via': 'train', 'lo': NONE, 'hi': hi, 'last': lo}
-        elif via == 'train':  # explicit lower bound, the tag holds something else
-            launch = {'via': 'train', 'lo': lo, 'hi': hi, 'last': rnd.choice([NONE] + list(range(span)))}
+        elif via == 'train':  # explicit lower bound, the tag holds something else (nothing when the window is open)
+            launch = {'via': 'train', 'lo': lo, 'hi': hi, 'last': NONE if lo == NONE else rnd.choice([NONE] + list(range(span)))}
         else:
             launch = {'via': via, 'lo': lo, 'hi': hi, 'last': NONE}
         launch['form'] = rnd.choice(FORMS[kind])
@@ -484,7 +503,7 @@ def main(chk):
     # ---- 2. spec -> code: behaviours exported by TLC replayed on the real extraction path
     exports = [(5, 4)] if chk.quick else [(5, 4), (6, 6)]
     cases = []
-    runner_budget = {'windows': 20 if chk.quick else 300, 'train1': 50 if chk.quick else 1029, 'nonord': 10 if chk.quick else 49}
+    runner_budget = {'windows': 20 if chk.quick else 120, 'train1': 50 if chk.quick else 350, 'nonord': 10 if chk.quick else 49}
     for round_, (dexp, lexp) in enumerate(exports):
         res = chk.tlc('Windows', cfg_windows(dexp, lexp, 'doc', True, f'w-export{round_}.cfg'), require=ACTIONS, workers=1)
         behaviours = res.json_prints()
@@ -493,7 +512,7 @@ def main(chk):
         span = dexp + 1
         loads = [b for b in behaviours if b['via'] == 'load']
         trains = {m: [b for b in behaviours if b['via'] == 'train' and b['mode'] == m] for m in ('windows', 'train1')}
-        per = (2 if chk.quick else 13) if round_ == 0 else 2
+        per = (2 if chk.quick else 5) if round_ == 0 else 1
         for idx, beh in enumerate(loads):
             for kind, form in rotor.combos(per):
                 cases.append(case_from_behaviour(beh, kind, form, rotor, rnd, span, len(cases)))
@@ -510,33 +529,42 @@ def main(chk):
             for kind, fpos in FALSY.items():
                 off = min(fpos, 1)
                 hits = [b for b in trains['train1'] if b['edges'][0] == fpos - off]
-                for beh in (rnd.sample(hits, 5) if chk.quick else hits):
+                for beh in rnd.sample(hits, 5 if chk.quick else 40):
                     cases.append(through_runner(case_from_behaviour(beh, kind, 'native', rotor, rnd, span, len(cases), off=off)))
                 for beh in loads:
                     given = [e for e in beh['edges'] if e != NONE]
                     if beh['mode'] == 'nonord' and given and all(e == fpos - off for e in given):
                         cases.append(case_from_behaviour(beh, kind, 'native', rotor, rnd, span, len(cases), off=off))
+            # targeted: two bounds of equal python hash (-1, -2) on otherwise identical statements, one after the other
+            for sem in sorted(SPELLINGS):
+                for edges in ([2, NONE], [1, NONE]):
+                    beh = next(b for b in loads if b['mode'] == 'windows' and b['sem'] == sem and b['edges'] == edges)
+                    case = case_from_behaviour(beh, 'integer', 'native', rotor, rnd, span, len(cases), off=0)
+                    cases.append(dict(case, shape='select', labels=False))
             nonord = [b for b in loads if b['mode'] == 'nonord']
             for idx, beh in enumerate(rnd.sample(nonord, min(runner_budget['nonord'], len(nonord)))):
                 kind, form = rotor.combos(1)[0]
                 case = case_from_behaviour(beh, kind, form, rotor, rnd, span, len(cases))
                 cases.append(through_runner(case, 'apply' if idx % 2 else 'train'))
             # Runner.apply passes explicit bounds straight through
-            for idx, beh in enumerate(rnd.sample([b for b in loads if b['mode'] == 'windows'], 6 if chk.quick else 80)):
+            for idx, beh in enumerate(rnd.sample([b for b in loads if b['mode'] == 'windows'], 6 if chk.quick else 40)):
                 kind, form = rotor.combos(1)[0]
                 cases.append(through_runner(case_from_behaviour(beh, kind, form, rotor, rnd, span, len(cases)), 'apply'))
     # ---- 3. code -> spec only: randomized cases beyond the constants of the model
-    for _ in range(150 if chk.quick else 2500):
+    for _ in range(150 if chk.quick else 1200):
         cases.append(random_case(rnd, rotor, 'load'))
-    for _ in range(6 if chk.quick else 120):
+    for _ in range(6 if chk.quick else 60):
         cases.append(through_runner(random_case(rnd, rotor, rnd.choice(['train', 'apply']))))
 
     failures = {}  # (case index, segment, launch index) -> description
     traces, index = [], []
     combos = set()
     spent = {'load': 0.0, 'runner': 0.0}
+    history = {}
     for cid, case in enumerate(cases):
         started = time.time()
+        for launch in case['launches']:  # in launch order: the third class depends on what the process has seen
+            launch['finding'] = classify(case, launch, history)
         observed = run_case(worlds, case)
         spent['load' if case['launches'][0]['via'] == 'load' else 'runner'] += time.time() - started
         combos.add((case['kind'], case['sem'] if case['ordinal'] else 'nonord', case['form']))
@@ -573,8 +601,10 @@ def main(chk):
 
     for (cid, seg, n), what in sorted(failures.items()):
         case = cases[cid]
-        chk.fail(what, {'case': {k: v for k, v in case.items() if k != 'expect'}, 'segment': seg, 'launch': n},
-                 finding=classify(case, case['launches'][n]))
+        finding, twin = case['launches'][n]['finding'][seg]
+        lite = dict(case, launches=[{k: v for k, v in l.items() if k != 'finding'} for l in case['launches']])
+        lite.pop('expect', None)
+        chk.fail(what, {'case': lite, 'segment': seg, 'launch': n, 'twin': twin}, finding=finding)
     chk.validated(accepted)
     for cid in (0, len(cases) // 3, len(cases) // 2, len(cases) - 1):
         case = cases[cid]
@@ -649,6 +679,9 @@ def replay(chk, path):
     logging.disable(logging.ERROR)  # forml logs every refused launch as an error
     case = rep['case']
     worlds = {'load': World('sqlite://'), 'runner': World(f'sqlite:///{os.path.join(os.getcwd(), "c10.db")}', cached=True)}
+    if rep.get('twin'):  # the statement this process must have seen before (bounds of equal python hash)
+        twin = dict(rep['twin'])
+        run_case(worlds, dict(case, off=twin.pop('off'), launches=[twin]))
     observed = run_case(worlds, case)
     events = observed[rep['segment']]
     (matched, length), = validate(chk, [trace_of(case, rep['segment'], events)])
